@@ -40,6 +40,15 @@ class Tok:
         return self.name
 
 
+class FalsyTok(Tok):
+    """a child that is false in a boolean context without being None (a
+    product with a zero factor, a quotient with a zero numerator): a handler
+    that drops children by truthiness loses it"""
+
+    def __bool__(self):
+        return False
+
+
 class Data:
     """the value of a data field: handed through untouched, compared by
     identity"""
@@ -83,7 +92,8 @@ def _make(n, kinds, tuple_len=2):
         if k == CHILD:
             fields[f] = Tok(f)
         elif k == CHILD_TUPLE:
-            fields[f] = tuple(Tok(f"{f}[{i}]") for i in range(tuple_len))
+            fields[f] = tuple((FalsyTok if i == 1 else Tok)(f"{f}[{i}]")
+                              for i in range(tuple_len))
         elif k == CHILD_MAP:
             fields[f] = {"k1": Tok(f"{f}[k1]"), "k2": Tok(f"{f}[k2]")}
         else:
